@@ -364,3 +364,43 @@ def feasible_values(body, e, leaf, limit=256):
         if ok:
             out.append((try_ev(body, a, leaf), a))
     return out
+
+
+def feasible_alternatives(body, e, leaf, max_depth=16):
+    """Like feasible_values, but a branch of a merged value is judged by its *path condition relative to the merge*
+    (Body.branch_dnf / path_dnf: a disjunction over the paths, so an or-pattern arm `"a" | "b" => X` is infeasible exactly when
+    both tests fail) instead of by the conjunction that dominates it. Returns [(value or None, alternative expression)]."""
+    from .facts import _spine_phi, _replace_spine, _phi_key, subst_args, norm_cond
+    out = []
+
+    def holds(b2, sub, d, v):
+        if sub is not None:
+            d = subst_args(d, sub)
+        d, v = norm_cond(d, v)
+        dv = try_ev(body, d, leaf)
+        if isinstance(dv, dict):
+            dv = dv.get('__discr__')
+        if dv is None or not isinstance(dv, int):
+            return None
+        return (dv not in v[1]) if isinstance(v, tuple) else (dv in v)
+
+    def rec(x, depth):
+        ph = _spine_phi(x)
+        if ph is None or depth > max_depth:
+            out.append((try_ev(body, x, leaf), x))
+            return
+        b2 = body.facts.bodies.get(ph[5], body) if len(ph) > 5 and ph[5] else body
+        sub = ph[6] if len(ph) > 6 else None
+        key = _phi_key(ph)
+        for k, (br, where) in enumerate(zip(ph[2], ph[4])):
+            if br[0] == 'loop':
+                continue
+            dnf = None
+            if not (isinstance(where, tuple) and where and where[0] == 'cond'):
+                dnf = b2.path_dnf(where) if not b2.loops() else b2.branch_dnf(where)
+            if dnf is None:
+                dnf = [phi_branch_conditions(b2, where)]
+            if any(all(holds(b2, sub, d, v) is not False for (_, d, v) in conj) for conj in dnf):
+                rec(_replace_spine(x, key, k), depth + 1)
+    rec(e, 0)
+    return out
